@@ -1,6 +1,7 @@
 """Specs for connection bookkeeping in src/context.rs.  Property C16 (sequential part)."""
 import re
 import z3
+import harness
 from values import Int, Bool, UNIT, Agg, Ref, Opaque, Bytes, SeqV, Future, BV, simp, concrete, fresh_name
 from engine import State, Unsupported
 import contracts as C
@@ -14,7 +15,7 @@ def _ops(ck, method, extra_args=()):
     if fn is None:
         return None, None, None
     ex = ck.engine(loop_bound=4)
-    ex.benign_havoc = re.compile(r'.')
+    ex.benign_havoc = harness.IRRELEVANT
     st = State()
     has_cb = z3.BitVec('callback_installed', 64)
     ex.assume(st, z3.ULT(has_cb, BV(2, 64)))
@@ -97,7 +98,7 @@ def spec_set_state(ck):
     if fn is None:
         return
     ex = ck.engine(loop_bound=3)
-    ex.benign_havoc = re.compile(r'.')
+    ex.benign_havoc = harness.IRRELEVANT
     ex.overrides.append((re.compile(r'^(?:std::time::)?SystemTime::now$'), lambda ctx: Opaque('SystemTime', 'now')))
     ex.overrides.append((re.compile(r'core::slice::<impl \[ContextStateLog\]>::last$|Vec::<ContextStateLog>::last$'), lambda ctx: C.mk_option(ctx.ex, None)))
     st = State()
@@ -137,7 +138,7 @@ def spec_drop(ck):
         return
     fn = ck.target(cands[0])
     ex = ck.engine(loop_bound=3)
-    ex.benign_havoc = re.compile(r'.')
+    ex.benign_havoc = harness.IRRELEVANT
     ex.havoc_result_ok = True
     st = State()
 
